@@ -116,7 +116,7 @@ def _scripted_base(rng, c, L):
     return seg
 
 
-def _vl_base(rng, n):
+def _vl_base(rng, n, kind):
     shape = rng.choice(sp.PSHAPES)
     gens = sp.random_gens(rng, with_aux=True, bmax=2)
     seg = {"n": n, "shape": shape, "gens": gens, "opt": sp.random_opt(rng, rng.choice(["sgd", "momentum", "schedule"])),
@@ -132,7 +132,6 @@ def _vl_base(rng, n):
     for k in ("param", "obs"):
         if vg[k] is not None:
             vg[k]["n"] = max(vg[k]["n"], vg["data"]["b"])
-    kind = rng.choice(["random", "random", "plateau", "staircase"])
     if kind == "plateau":
         # the criterion only depends on a parameter the training loss never moves: equal values from
         # the second invocation on (non-strict "improvements" must not count)
@@ -169,7 +168,7 @@ def gen_cases(rng, tier):
     nb = 6 if tier == "quick" else 30
     for bi in range(nb):
         n = rng.choice([8, 12, 12, 16, 20])
-        base = _vl_base(rng, n)
+        base = _vl_base(rng, n, ["plateau", "random", "staircase", "random"][bi % 4])
         variants = []
         for c in (1, 2, 3):
             for pat in (0, 1, 2, 3):
